@@ -34,14 +34,14 @@ type prim struct {
 	signed bool
 	lo, hi int64
 	write  func(b *codec.Buffer, v int64, tag byte) error
-	read   func(r *codec.Reader, tag byte) (int64, error)
+	read   func(r *codec.Reader, tag byte, init int64) (int64, error) // init: what the destination holds before the read
 }
 
 var prims = []prim{
 	{"bool", false, 0, 1,
 		func(b *codec.Buffer, v int64, tag byte) error { return b.WriteBool(v != 0, tag) },
-		func(r *codec.Reader, tag byte) (int64, error) {
-			var x bool
+		func(r *codec.Reader, tag byte, init int64) (int64, error) {
+			x := init&1 != 0
 			err := r.ReadBool(&x, tag, true)
 			if x {
 				return 1, err
@@ -50,50 +50,50 @@ var prims = []prim{
 		}},
 	{"int8", true, -128, 127,
 		func(b *codec.Buffer, v int64, tag byte) error { return b.WriteInt8(int8(v), tag) },
-		func(r *codec.Reader, tag byte) (int64, error) {
-			var x int8
+		func(r *codec.Reader, tag byte, init int64) (int64, error) {
+			x := int8(init)
 			err := r.ReadInt8(&x, tag, true)
 			return int64(x), err
 		}},
 	{"uint8", false, 0, 255,
 		func(b *codec.Buffer, v int64, tag byte) error { return b.WriteUint8(uint8(v), tag) },
-		func(r *codec.Reader, tag byte) (int64, error) {
-			var x uint8
+		func(r *codec.Reader, tag byte, init int64) (int64, error) {
+			x := uint8(init)
 			err := r.ReadUint8(&x, tag, true)
 			return int64(x), err
 		}},
 	{"int16", true, -32768, 32767,
 		func(b *codec.Buffer, v int64, tag byte) error { return b.WriteInt16(int16(v), tag) },
-		func(r *codec.Reader, tag byte) (int64, error) {
-			var x int16
+		func(r *codec.Reader, tag byte, init int64) (int64, error) {
+			x := int16(init)
 			err := r.ReadInt16(&x, tag, true)
 			return int64(x), err
 		}},
 	{"uint16", false, 0, 65535,
 		func(b *codec.Buffer, v int64, tag byte) error { return b.WriteUint16(uint16(v), tag) },
-		func(r *codec.Reader, tag byte) (int64, error) {
-			var x uint16
+		func(r *codec.Reader, tag byte, init int64) (int64, error) {
+			x := uint16(init)
 			err := r.ReadUint16(&x, tag, true)
 			return int64(x), err
 		}},
 	{"int32", true, math.MinInt32, math.MaxInt32,
 		func(b *codec.Buffer, v int64, tag byte) error { return b.WriteInt32(int32(v), tag) },
-		func(r *codec.Reader, tag byte) (int64, error) {
-			var x int32
+		func(r *codec.Reader, tag byte, init int64) (int64, error) {
+			x := int32(init)
 			err := r.ReadInt32(&x, tag, true)
 			return int64(x), err
 		}},
 	{"uint32", false, 0, math.MaxUint32,
 		func(b *codec.Buffer, v int64, tag byte) error { return b.WriteUint32(uint32(v), tag) },
-		func(r *codec.Reader, tag byte) (int64, error) {
-			var x uint32
+		func(r *codec.Reader, tag byte, init int64) (int64, error) {
+			x := uint32(init)
 			err := r.ReadUint32(&x, tag, true)
 			return int64(x), err
 		}},
 	{"int64", true, math.MinInt64, math.MaxInt64,
 		func(b *codec.Buffer, v int64, tag byte) error { return b.WriteInt64(v, tag) },
-		func(r *codec.Reader, tag byte) (int64, error) {
-			var x int64
+		func(r *codec.Reader, tag byte, init int64) (int64, error) {
+			x := int64(init)
 			err := r.ReadInt64(&x, tag, true)
 			return x, err
 		}},
@@ -132,7 +132,7 @@ func intCase(p *prim, v int64, tag int, buf *codec.Buffer) {
 	input := make([]byte, len(got))
 	copy(input, got)
 	r := codec.NewReader(input)
-	back, err := p.read(r, byte(tag))
+	back, err := p.read(r, byte(tag), ^v) // the destination is in use: it holds something else
 	if err != nil {
 		report("read-error", p.name, tag, fmt.Sprint(v), got, want, err.Error())
 		return
@@ -147,7 +147,7 @@ func intCase(p *prim, v int64, tag int, buf *codec.Buffer) {
 		return
 	}
 	r2 := codec.NewReader(input)
-	_, _ = p.read(r2, byte(tag))
+	_, _ = p.read(r2, byte(tag), 0)
 	if off := offsetOf(r2, input); off != fieldLen {
 		report("offset", p.name, tag, fmt.Sprint(v), got, want, fmt.Sprintf("reader at offset %d after the field, field length %d", off, fieldLen))
 	}
@@ -161,7 +161,7 @@ func wideCase(p *prim, v int64, w, tag int) {
 	input := make([]byte, len(enc))
 	copy(input, enc)
 	r := codec.NewReader(input)
-	back, err := p.read(r, byte(tag))
+	back, err := p.read(r, byte(tag), ^v)
 	val := fmt.Sprintf("%d as %s", v, refcodec.TypeName(w))
 	if err != nil {
 		report("widening-rejected", p.name, tag, val, enc, nil, err.Error())
@@ -286,7 +286,7 @@ func float32Case(bits uint32, tag int) {
 	input := append([]byte(nil), got...)
 	input = input[:len(input):len(input)]
 	r := codec.NewReader(input)
-	var x float32
+	x := math.Float32frombits(^bits)
 	if err := r.ReadFloat32(&x, byte(tag), true); err != nil {
 		report("read-error", "float32", tag, val, got, want, err.Error())
 		return
@@ -300,7 +300,10 @@ func float32Case(bits uint32, tag int) {
 	}
 	// widening: a double reader accepts the float encoding with the same numeric value
 	r2 := codec.NewReader(input)
-	var d float64
+	d := -1 - float64(math.Float32frombits(bits))
+	if d != d {
+		d = 1
+	}
 	if err := r2.ReadFloat64(&d, byte(tag), true); err != nil {
 		report("widening-rejected", "float64", tag, val+" as Float", got, nil, err.Error())
 		return
@@ -333,7 +336,7 @@ func float64Case(bits uint64, tag int) {
 	input := append([]byte(nil), got...)
 	input = input[:len(input):len(input)]
 	r := codec.NewReader(input)
-	var x float64
+	x := math.Float64frombits(^bits)
 	if err := r.ReadFloat64(&x, byte(tag), true); err != nil {
 		report("read-error", "float64", tag, val, got, want, err.Error())
 		return
@@ -375,7 +378,7 @@ func stringCase(s []byte, tag int) {
 	input := append([]byte(nil), got...)
 	input = input[:len(input):len(input)]
 	r := codec.NewReader(input)
-	var x string
+	x := string(s) + "~what the destination held before"
 	if err := r.ReadString(&x, byte(tag), true); err != nil {
 		report("read-error", "string", tag, val, nil, nil, err.Error())
 		return
@@ -390,9 +393,19 @@ func stringCase(s []byte, tag int) {
 		return
 	}
 	r2 := codec.NewReader(input)
-	_ = r2.ReadString(&x, byte(tag), true)
+	var y string
+	_ = r2.ReadString(&y, byte(tag), true)
 	if off := offsetOf(r2, input); off != fieldLen {
 		report("offset", "string", tag, val, nil, nil, fmt.Sprintf("offset %d field length %d", off, fieldLen))
+	}
+	// the value read is a value of its own: it stays what was written when the caller's input
+	// buffer is used for the next message
+	for i := range input {
+		input[i] ^= 0xFF
+	}
+	if x != string(s) || y != string(s) {
+		report("roundtrip-mismatch", "string", tag, val+" then the input buffer reused", nil, nil, "the string read changed when the input buffer it was read from was overwritten")
+		return
 	}
 	// a String4 encoding of a short string is also a well-formed string field
 	if len(s) <= 255 {
@@ -401,10 +414,18 @@ func stringCase(s []byte, tag int) {
 		enc = refcodec.AppendIntWidth(enc, int64(sentinel), refcodec.TByte, 255)
 		enc = enc[:len(enc):len(enc)]
 		r3 := codec.NewReader(enc)
+		x = "~stale~" + string(s)
 		if err := r3.ReadString(&x, byte(tag), true); err != nil || x != string(s) {
 			report("widening-value", "string", tag, val+" as String4", nil, nil, fmt.Sprintf("err=%v len=%d", err, len(x)))
 		} else if off := offsetOf(r3, enc); off != fl {
 			report("widening-offset", "string", tag, val+" as String4", nil, nil, fmt.Sprintf("offset %d field length %d", off, fl))
+		} else {
+			for i := range enc {
+				enc[i] ^= 0xFF
+			}
+			if x != string(s) {
+				report("widening-value", "string", tag, val+" as String4 then the input buffer reused", nil, nil, "the string read changed when the input buffer it was read from was overwritten")
+			}
 		}
 	}
 }
